@@ -179,6 +179,14 @@ def run_case(case):
                     ev["same"] = (data == keep)
                     c = spec.sampling_violation_counter
                     ev["viol"] = c if isinstance(c, int) else -1
+                elif a == "explain":
+                    spec = specs[oi]
+                    ev["rep"] = {v: [] for v in o["vars"]}
+                    spec.explain()
+                    ex = spec.explainer.explanations
+                    for v in o["vars"]:
+                        ivs = ex.get(v, [])
+                        ev["rep"][v] = [[int(iv[0]), int(iv[1])] for iv in ivs]
                 elif a == "get":
                     spec = specs[oi]
                     ev["ret"] = []
